@@ -12,6 +12,10 @@ import HSModel.Proofs.RefsSafe
 import HSModel.Proofs.Disc
 namespace HS
 
+/-- the discipline every call satisfies: it returns holding nothing -/
+abbrev Post0 : List Lock → Except Exc Val → Prop := fun h _ => h = []
+
+
 /-! ### static shape of a bracketed program -/
 
 def Prog.Quiet {α : Type} : Prog α → Prop
@@ -462,7 +466,7 @@ theorem seqRun_snoc (progs : List (Prog (Except Exc Val))) (order : List Nat) (j
   simp [seqRun, List.foldl_append]
 
 section
-variable (c : LockClass) (i : Str) (post : List Lock → Except Exc Val → Prop)
+variable (c : LockClass) (i : Str) (post : List Lock → Except Exc Val → Prop) (act : Nat → Prop)
   (progs : List (Prog (Except Exc Val))) (w0 : World)
 
 /-- has not passed its acquire -/
@@ -476,14 +480,16 @@ structure SInv (cf : Conf) (done : List Nat) (cur : Option Nat) : Prop where
   nodup : done.Nodup
   dlt : ∀ j ∈ done, j < progs.length
   dret : ∀ j ∈ done, ∀ t, cf.ts[j]? = some t → ∃ v, t.prog = .ret v ∧ (j, v) ∈ (seqRun progs done w0).2
-  wait : ∀ j t p, j ∉ done → some j ≠ cur → cf.ts[j]? = some t → progs[j]? = some p → Waiting c i post t p
+  wait : ∀ j t p, act j → j ∉ done → some j ≠ cur → cf.ts[j]? = some t → progs[j]? = some p → Waiting c i post t p
   curNone : cur = none → cf.w.cnt c i = 0 ∧ cf.w = (seqRun progs done w0).1
   curSome : ∀ a, cur = some a → a ∉ done ∧ cf.w.cnt c i = 1 ∧ ∃ t p hl, cf.ts[a]? = some t ∧ progs[a]? = some p ∧
     t.prog.FinU c i ∧ t.prog.Disc post hl ∧ Held hl cf.w ∧ hl.Nodup ∧ t.prog.run cf.w = p.run (seqRun progs done w0).1
 
-theorem sinv_step {cf : Conf} {done : List Nat} {cur : Option Nat} (h : SInv c i post progs w0 cf done cur)
-    (fuel j : Nat) (t : TState) (hj : cf.ts[j]? = some t) (hen : t.enabled cf.w = true) :
-    ∃ done' cur', SInv c i post progs w0 { w := (t.step fuel cf.w).2, ts := cf.ts.set j (t.step fuel cf.w).1 } done' cur' := by
+theorem sinv_step {cf : Conf} {done : List Nat} {cur : Option Nat} (h : SInv c i post act progs w0 cf done cur)
+    (fuel j : Nat) (t : TState) (hj : cf.ts[j]? = some t) (hen : t.enabled cf.w = true)
+    (hact : j ∉ done → some j ≠ cur → act j) :
+    ∃ done' cur', SInv c i post act progs w0 { w := (t.step fuel cf.w).2, ts := cf.ts.set j (t.step fuel cf.w).1 } done' cur' ∧
+      (∀ x ∈ done', x ∈ done ∨ x = j) ∧ (cur' = cur ∨ cur' = some j ∨ cur' = none) := by
   have hjlt : j < cf.ts.length := by
     rcases Nat.lt_or_ge j cf.ts.length with h1 | h1
     · exact h1
@@ -499,15 +505,15 @@ theorem sinv_step {cf : Conf} {done : List Nat} {cur : Option Nat} (h : SInv c i
   · -- nothing left to do: at most the thread is marked finished
     obtain ⟨v, hv, hmem⟩ := h.dret j hd t hj
     obtain ⟨h1, h2⟩ := quiet_step fuel t cf.w (by rw [hv]; trivial)
-    refine ⟨done, cur, ⟨by simpa using h.len, h.nodup, h.dlt, ?_, ?_, ?_, ?_⟩⟩
+    refine ⟨done, cur, ⟨by simpa using h.len, h.nodup, h.dlt, ?_, ?_, ?_, ?_⟩, fun x hx => Or.inl hx, Or.inl rfl⟩
     · intro j' hj' t' ht'
       by_cases e : j' = j
       · subst e; rw [hset_self] at ht'; cases ht'
         exact ⟨v, by rw [h1, hv], hmem⟩
       · rw [hset_ne j' e] at ht'; exact h.dret j' hj' t' ht'
-    · intro j' t' p' hj' hc' ht' hp'
+    · intro j' t' p' ha' hj' hc' ht' hp'
       have e : j' ≠ j := fun e => hj' (e ▸ hd)
-      rw [hset_ne j' e] at ht'; exact h.wait j' t' p' hj' hc' ht' hp'
+      rw [hset_ne j' e] at ht'; exact h.wait j' t' p' ha' hj' hc' ht' hp'
     · intro hc; simp only [h2]; exact h.curNone hc
     · intro a ha
       obtain ⟨h3, h4, t', p', hl, h5, h6, h7, h7d, h7h, h7n, h8⟩ := h.curSome a ha
@@ -521,13 +527,13 @@ theorem sinv_step {cf : Conf} {done : List Nat} {cur : Option Nat} (h : SInv c i
       rw [hp] at h6; cases h6
       have hrun := step_prog_run fuel t cf.w
       rcases finU_step fuel t cf.w hl h7 h7d h7h h7n h4 hen with ⟨hl', hf, hfd, hfh, hfn, hc1⟩ | ⟨hq, hc0⟩
-      · refine ⟨done, cur, ⟨by simpa using h.len, h.nodup, h.dlt, ?_, ?_, ?_, ?_⟩⟩
+      · refine ⟨done, cur, ⟨by simpa using h.len, h.nodup, h.dlt, ?_, ?_, ?_, ?_⟩, fun x hx => Or.inl hx, Or.inl rfl⟩
         · intro j' hj' t' ht'
           have e : j' ≠ j := fun e => hd (e ▸ hj')
           rw [hset_ne j' e] at ht'; exact h.dret j' hj' t' ht'
-        · intro j' t' p' hj' hc' ht' hp'
+        · intro j' t' p' ha' hj' hc' ht' hp'
           have e : j' ≠ j := fun e => hc' (e ▸ hc)
-          rw [hset_ne j' e] at ht'; exact h.wait j' t' p' hj' hc' ht' hp'
+          rw [hset_ne j' e] at ht'; exact h.wait j' t' p' ha' hj' hc' ht' hp'
         · intro hn; rw [hn] at hc; cases hc
         · intro a ha
           have e : a = j := by rw [← hc] at ha; cases ha; rfl
@@ -546,7 +552,9 @@ theorem sinv_step {cf : Conf} {done : List Nat} {cur : Option Nat} (h : SInv c i
         have hsnoc : seqRun progs (done ++ [j]) w0 =
             ((p.run (seqRun progs done w0).1).2, (seqRun progs done w0).2 ++ [(j, (p.run (seqRun progs done w0).1).1)]) := by
           rw [seqRun_snoc]; simp only [seqStep, hp]
-        refine ⟨done ++ [j], none, ⟨by simpa using h.len, ?_, ?_, ?_, ?_, ?_, ?_⟩⟩
+        refine ⟨done ++ [j], none, ⟨by simpa using h.len, ?_, ?_, ?_, ?_, ?_, ?_⟩,
+          (fun x hx => by rcases List.mem_append.mp hx with hx | hx; exact Or.inl hx; exact Or.inr (List.mem_singleton.mp hx)),
+          Or.inr (Or.inr rfl)⟩
         · rw [List.nodup_append]
           refine ⟨h.nodup, by simp, ?_⟩
           intro a ha b hb
@@ -567,17 +575,17 @@ theorem sinv_step {cf : Conf} {done : List Nat} {cur : Option Nat} (h : SInv c i
           · simp only [List.mem_singleton] at hj'; subst hj'
             rw [hset_self] at ht'; cases ht'
             exact ⟨v, hv, List.mem_append_right _ (by rw [hres]; simp)⟩
-        · intro j' t' p' hj' _ ht' hp'
+        · intro j' t' p' ha' hj' _ ht' hp'
           have hj1 : j' ∉ done := fun e => hj' (List.mem_append_left _ e)
           have e : j' ≠ j := fun e => hj' (List.mem_append_right _ (by simp [e]))
           rw [hset_ne j' e] at ht'
-          exact h.wait j' t' p' hj1 (by rw [← hc]; intro e'; cases e'; exact e rfl) ht' hp'
+          exact h.wait j' t' p' ha' hj1 (by rw [← hc]; intro e'; cases e'; exact e rfl) ht' hp'
         · intro _
           refine ⟨hc0, ?_⟩
           rw [hsnoc]; exact hw
         · intro a ha; cases ha
     · -- a thread that has not passed its acquire
-      obtain ⟨hprog, k, hk, hfin, hdisc⟩ := h.wait j t p hd hc hj hp
+      obtain ⟨hprog, k, hk, hfin, hdisc⟩ := h.wait j t p (hact hd hc) hd hc hj hp
       subst hk
       cases t with
       | finished r => cases hprog
@@ -585,16 +593,16 @@ theorem sinv_step {cf : Conf} {done : List Nat} {cur : Option Nat} (h : SInv c i
         have hq : q = .op (.acquire c i) k := hprog
         subst hq
         obtain ⟨h1, h2⟩ := fresh_acquire_step (c := c) (i := i) fuel k cf.w
-        refine ⟨done, cur, ⟨by simpa using h.len, h.nodup, h.dlt, ?_, ?_, ?_, ?_⟩⟩
+        refine ⟨done, cur, ⟨by simpa using h.len, h.nodup, h.dlt, ?_, ?_, ?_, ?_⟩, fun x hx => Or.inl hx, Or.inl rfl⟩
         · intro j' hj' t' ht'
           have e : j' ≠ j := fun e => hd (e ▸ hj')
           rw [hset_ne j' e] at ht'; exact h.dret j' hj' t' ht'
-        · intro j' t' p' hj' hc' ht' hp'
+        · intro j' t' p' ha' hj' hc' ht' hp'
           by_cases e : j' = j
           · subst e; rw [hset_self] at ht'; cases ht'
             rw [hp] at hp'; cases hp'
             exact ⟨h1, k, rfl, hfin, hdisc⟩
-          · rw [hset_ne j' e] at ht'; exact h.wait j' t' p' hj' hc' ht' hp'
+          · rw [hset_ne j' e] at ht'; exact h.wait j' t' p' ha' hj' hc' ht' hp'
         · intro hn; simp only [h2]; exact h.curNone hn
         · intro a ha
           obtain ⟨h3, h4, t', p', hl, h5, h6, h7, h7d, h7h, h7n, h8⟩ := h.curSome a ha
@@ -616,14 +624,14 @@ theorem sinv_step {cf : Conf} {done : List Nat} {cur : Option Nat} (h : SInv c i
         obtain ⟨_, hw⟩ := h.curNone hcur
         obtain ⟨hf, hfd, hfh, hc1⟩ := at_acquire_step fuel k' cf.w hfin hdisc hfree
         have hrun := step_prog_run fuel (TState.at (.acquire c i) k') cf.w
-        refine ⟨done, some j, ⟨by simpa using h.len, h.nodup, h.dlt, ?_, ?_, ?_, ?_⟩⟩
+        refine ⟨done, some j, ⟨by simpa using h.len, h.nodup, h.dlt, ?_, ?_, ?_, ?_⟩, fun x hx => Or.inl hx, Or.inr (Or.inl rfl)⟩
         · intro j' hj' t' ht'
           have e : j' ≠ j := fun e => hd (e ▸ hj')
           rw [hset_ne j' e] at ht'; exact h.dret j' hj' t' ht'
-        · intro j' t' p' hj' hc' ht' hp'
+        · intro j' t' p' ha' hj' hc' ht' hp'
           have e : j' ≠ j := fun e => hc' (by rw [e])
           rw [hset_ne j' e] at ht'
-          exact h.wait j' t' p' hj' (by rw [hcur]; intro e'; cases e') ht' hp'
+          exact h.wait j' t' p' ha' hj' (by rw [hcur]; intro e'; cases e') ht' hp'
         · intro hn; cases hn
         · intro a ha
           cases ha
@@ -637,9 +645,12 @@ section
 variable (c : LockClass) (i : Str) (post : List Lock → Except Exc Val → Prop)
   (progs : List (Prog (Except Exc Val))) (w0 : World)
 
+/-- all threads take part from the start -/
+abbrev allAct : Nat → Prop := fun _ => True
+
 theorem sinv_schedule (fuel : Nat) (sched : List Nat) (cf : Conf) (n : Nat) (done : List Nat) (cur : Option Nat)
-    (h : SInv c i post progs w0 cf done cur) :
-    ∃ done' cur', SInv c i post progs w0 (runSchedule fuel cf sched n).1 done' cur' := by
+    (h : SInv c i post allAct progs w0 cf done cur) :
+    ∃ done' cur', SInv c i post allAct progs w0 (runSchedule fuel cf sched n).1 done' cur' := by
   induction sched generalizing cf n done cur with
   | nil => exact ⟨done, cur, h⟩
   | cons j rest ih =>
@@ -650,7 +661,7 @@ theorem sinv_schedule (fuel : Nat) (sched : List Nat) (cf : Conf) (n : Nat) (don
       simp only
       by_cases hen : t.enabled cf.w = true
       · rw [if_pos hen]
-        obtain ⟨d', c', h'⟩ := sinv_step c i post progs w0 h fuel j t hj hen
+        obtain ⟨d', c', h', _, _⟩ := sinv_step c i post allAct progs w0 h fuel j t hj hen (fun _ _ => trivial)
         exact ih _ _ d' c' h'
       · rw [if_neg hen]; exact ⟨done, cur, h⟩
 
@@ -704,8 +715,10 @@ def isRet : Prog (Except Exc Val) → Bool
 /-- threads with nothing to do from the start (calls rejected for their arguments) -/
 def done0 : List Nat := (List.range progs.length).filter fun j => match progs[j]? with | some p => isRet p | none => false
 
-theorem sinv_initial (hb : ∀ p ∈ progs, p.BracketedU c i ∧ p.Disc post []) (h0 : w0.cnt c i = 0) :
-    SInv c i post progs w0 { w := w0, ts := progs.map .fresh } (done0 progs) none := by
+theorem sinv_initial (act : Nat → Prop)
+    (hb : ∀ (j : Nat) (p : Prog (Except Exc Val)), act j → progs[j]? = some p → ¬ p.Quiet → p.BracketedU c i ∧ p.Disc post [])
+    (h0 : w0.cnt c i = 0) :
+    SInv c i post act progs w0 { w := w0, ts := progs.map .fresh } (done0 progs) none := by
   have hquiet : ∀ j ∈ done0 progs, ∀ p, progs[j]? = some p → p.Quiet := by
     intro j hj p hp
     simp only [done0, List.mem_filter, hp] at hj
@@ -730,22 +743,21 @@ theorem sinv_initial (hb : ∀ p ∈ progs, p.BracketedU c i ∧ p.Disc post [])
     cases p with
     | op e k => exact hq.elim
     | ret v => exact ⟨v, rfl, hres j hj v hp⟩
-  · intro j t p hj _ ht hp
+  · intro j t p hact hj _ ht hp
     obtain ⟨p', hp', rfl⟩ := hts j t ht
     rw [hp] at hp'; cases hp'
     have hjlt : j < progs.length := by
       rcases Nat.lt_or_ge j progs.length with h1 | h1
       · exact h1
       · rw [List.getElem?_eq_none h1] at hp; cases hp
-    have hmem : p ∈ progs := List.mem_of_getElem? hp
-    have hbp := hb p hmem
+    have hbp := hb j p hact hp
     cases p with
     | ret v =>
       exfalso; apply hj
       simp only [done0, List.mem_filter, List.mem_range, hp, isRet, and_true]
       exact hjlt
     | op e k =>
-      obtain ⟨⟨he, hk⟩, hdisc⟩ := hbp
+      obtain ⟨⟨he, hk⟩, hdisc⟩ := hbp (fun hq => hq.elim)
       subst he
       simp only [Prog.Disc, List.nil_append] at hdisc
       exact ⟨rfl, k, rfl, hk, hdisc.2⟩
@@ -768,7 +780,7 @@ theorem serial_schedule (hb : ∀ p ∈ progs, p.BracketedU c i ∧ p.Disc post 
       fin.w = (seqRun progs order w0).1 ∧
       ∀ (j : Nat) (t : TState), fin.ts[j]? = some t → ∃ v, t = TState.finished v ∧ (j, v) ∈ (seqRun progs order w0).2 := by
   intro fin hall
-  obtain ⟨done, cur, h⟩ := sinv_schedule c i post progs w0 fuel sched _ 0 _ _ (sinv_initial c i post progs w0 hb h0)
+  obtain ⟨done, cur, h⟩ := sinv_schedule c i post progs w0 fuel sched _ 0 _ _ (sinv_initial c i post progs w0 allAct (fun j p _ hp _ => hb p (List.mem_of_getElem? hp)) h0)
   have hfin : ∀ (j : Nat) (t : TState), fin.ts[j]? = some t → ∃ v, t = TState.finished v := by
     intro j t ht
     have := List.all_eq_true.mp hall t (List.mem_of_getElem? ht)
@@ -792,7 +804,7 @@ theorem serial_schedule (hb : ∀ p ∈ progs, p.BracketedU c i ∧ p.Disc post 
     have ht : fin.ts[j]? = some fin.ts[j] := List.getElem?_eq_getElem hjt
     have hp : progs[j]? = some progs[j] := List.getElem?_eq_getElem hj
     obtain ⟨v, hv⟩ := hfin j _ ht
-    obtain ⟨hprog, k, hk, _⟩ := h.wait j _ _ hnd (by rw [hcur]; intro e; cases e) ht hp
+    obtain ⟨hprog, k, hk, _⟩ := h.wait j _ _ trivial hnd (by rw [hcur]; intro e; cases e) ht hp
     rw [hv, hk] at hprog
     cases hprog
   refine ⟨done, h.nodup, ?_, (h.curNone hcur).2, ?_⟩
@@ -1101,4 +1113,55 @@ theorem tagsPid_bracketedU (p : Str) (call : Call) (h : TagsPid p call) :
   | _ => exact h.elim
 
 end
+
+section
+variable (c : LockClass) (i : Str) (post : List Lock → Except Exc Val → Prop) (act : Nat → Prop)
+  (progs : List (Prog (Except Exc Val))) (w0 : World)
+
+/-- what the invariant says once every thread has returned and all of them took part -/
+theorem sinv_final {fin : Conf} {done : List Nat} {cur : Option Nat} (h : SInv c i post act progs w0 fin done cur)
+    (hall : fin.allFinished = true) (hact : ∀ j, j < progs.length → act j) :
+    done.Nodup ∧ (∀ j, j ∈ done ↔ j < progs.length) ∧ fin.w = (seqRun progs done w0).1 ∧
+    ∀ (j : Nat) (t : TState), fin.ts[j]? = some t → ∃ v, t = TState.finished v ∧ (j, v) ∈ (seqRun progs done w0).2 := by
+  have hfin : ∀ (j : Nat) (t : TState), fin.ts[j]? = some t → ∃ v, t = TState.finished v := by
+    intro j t ht
+    have := List.all_eq_true.mp hall t (List.mem_of_getElem? ht)
+    cases t with
+    | finished v => exact ⟨v, rfl⟩
+    | fresh p => simp at this
+    | «at» e k => simp at this
+  have hcur : cur = none := by
+    cases hc : cur with
+    | none => rfl
+    | some a =>
+      obtain ⟨_, _, t, p, _, ht, _, hf, _⟩ := h.curSome a hc
+      obtain ⟨v, rfl⟩ := hfin a t ht
+      exact hf.elim
+  have hlen : fin.ts.length = progs.length := h.len
+  have hall_done : ∀ j, j < progs.length → j ∈ done := by
+    intro j hj
+    apply Classical.byContradiction
+    intro hnd
+    have hjt : j < fin.ts.length := hlen ▸ hj
+    have ht : fin.ts[j]? = some fin.ts[j] := List.getElem?_eq_getElem hjt
+    have hp : progs[j]? = some progs[j] := List.getElem?_eq_getElem hj
+    obtain ⟨v, hv⟩ := hfin j _ ht
+    obtain ⟨hprog, k, hk, _⟩ := h.wait j _ _ (hact j hj) hnd (by rw [hcur]; intro e; cases e) ht hp
+    rw [hv, hk] at hprog
+    cases hprog
+  refine ⟨h.nodup, ?_, (h.curNone hcur).2, ?_⟩
+  · intro j
+    exact ⟨h.dlt j, hall_done j⟩
+  · intro j t ht
+    obtain ⟨v, rfl⟩ := hfin j t ht
+    have hj : j < progs.length := by
+      rcases Nat.lt_or_ge j fin.ts.length with h1 | h1
+      · exact hlen ▸ h1
+      · rw [List.getElem?_eq_none h1] at ht; cases ht
+    obtain ⟨v', hv', hmem⟩ := h.dret j (hall_done j hj) _ ht
+    cases hv'
+    exact ⟨v, rfl, hmem⟩
+
+end
+
 end HS
